@@ -155,7 +155,7 @@ def handle : List String → String
       let (v, _) := takeF (npol * npol * K * ns * ni) r
       let smp (p q i j k : Nat) : F := v.getD ((((p * npol + q) * K + k) * ns + i) * ni + j) 0
       " ".intercalate ((rng npol).flatMap fun p => (rng npol).flatMap fun q => (rng (mmax + 1)).flatMap fun m =>
-        (rng ns).flatMap fun i => (rng ni).map fun j => showF (ftEvenCoef npol N p q m (smp p q i j)))
+        (rng ns).flatMap fun i => (rng ni).map fun j => showF (ftEvenCoef piLit npol N p q m (smp p q i j)))
   | "layout" :: np :: r =>
       let npol := nat np
       let ns := r.map nat
